@@ -768,3 +768,44 @@ Qed.
 Lemma run_final_independent cf cf' w h :
   cf_cfg cf = cf_cfg cf' -> frunF cf w h = frunF cf' w h.
 Proof. intros E. unfold frunF. now rewrite E. Qed.
+
+(* ----------------------------------------------------------------- callback kinds, stacked decorators *)
+From M Require Import FeaturesKinds.
+
+Lemma has_kind_app k l1 l2 : has_kind k (l1 ++ l2) = has_kind k l1 || has_kind k l2.
+Proof. unfold has_kind. apply existsb_app. Qed.
+
+Lemma has_kind_flat_map k args :
+  has_kind k (flat_map mixin_kinds args) = existsb (fun x => has_kind k (mixin_kinds x)) args.
+Proof.
+  induction args as [|a r IH]; simpl; [reflexivity|]. now rewrite has_kind_app, IH.
+Qed.
+
+Lemma stack_kinds_exact k base : forall ds,
+  has_kind k (stack_kinds ds base) =
+  existsb (fun x => has_kind k (mixin_kinds x)) (concat ds) || has_kind k base.
+Proof.
+  induction ds as [|outer inner IH]; simpl; [reflexivity|].
+  unfold decorate_kinds. rewrite has_kind_app, has_kind_flat_map, IH, existsb_app. now rewrite orb_assoc.
+Qed.
+
+Lemma stack_kinds_frame k base ds : has_kind k base = true -> has_kind k (stack_kinds ds base) = true.
+Proof. intros H. rewrite stack_kinds_exact, H. apply orb_true_r. Qed.
+
+Lemma stack_kinds_inner k base outer inner :
+  has_kind k (stack_kinds inner base) = true -> has_kind k (stack_kinds (outer :: inner) base) = true.
+Proof. intros H. simpl. unfold decorate_kinds. rewrite has_kind_app, H. apply orb_true_r. Qed.
+
+(* mix-ins without enter code of their own (Tags here; Timeout with timeout=0 is not even an
+   entry of the order) may stand anywhere: the chain is that of the others, in their order *)
+Lemma chain_ignores_inert c fs : forall m src d r f,
+  enter_chain c fs m src d r f =
+  enter_chain c (filter (fun g => negb (feature_eqb g FTags)) fs) m src d r f.
+Proof.
+  induction fs as [|g k IH]; intros m src d r f; [reflexivity|].
+  destruct g; simpl filter.
+  - rewrite chain_tags_eq. apply IH.
+  - rewrite !chain_error_eq. destruct (error_test c d); [reflexivity | apply IH].
+  - rewrite !chain_vol_eq. apply IH.
+  - rewrite !chain_retry_eq. destruct (_ && _); [reflexivity | apply IH].
+Qed.
